@@ -6,7 +6,7 @@ import Driver.Util
 C20 spaces                                   → all code points with isSpace (hex runes)
 C20 decode <hexbytes>                        → hex runes
 C20 lex <hexbytes>                           → <line>:<hexrunes> …     ("-" when no token)
-C20 parse <hexbytes> {| e <k> <v>} {| f <id> <name> <content-hexbytes>} {| L <runes>} {| D <runes>}
+C20 parse <hexbytes> {| e <k> <v>} {| f <id> <name> <content-hexbytes>} {| L <runes>} {| D <runes>} {| r <dir> <class> <ref>}
                                              → ok <tree> | err <kind> <line> | panic | fuel
 C20 print … (same arguments)                 → ok <hexrunes of the canonical text> | err … | …
 ```
@@ -44,6 +44,7 @@ def parseEnv (gs : List (List String)) : Option Env :=
       pure { t with files := t.files ++ [(name, id.toNat?.getD 0, decodeUtf8 bs)] }
     | ["L", r] => do pure { t with letters := ← toStr (← unhexRunes? r) }
     | ["D", r] => do pure { t with digits := ← toStr (← unhexRunes? r) }
+    | ["r", _, _, _] => some t   -- the generator's record of a macro reference: for the Go monitor only
     | [] => some t
     | _ => none) {}
 
